@@ -1316,6 +1316,99 @@ Qed.
 Theorem to_number_error : forall s, parse_f64 s = None -> to_number s = S754_nan.
 Proof. intros s H. unfold to_number. rewrite H. reflexivity. Qed.
 
+(* ------------------------------------------------------------------ what the grammar can accept *)
+
+Definition numeric_char (b : Z) : Prop := digit b \/ b = 46 \/ b = 101 \/ b = 69 \/ b = 43 \/ b = 45.
+
+Lemma span_digits_eq s : s = fst (span_digits s) ++ snd (span_digits s).
+Proof.
+  induction s as [|c t IH]; cbn [span_digits]; [reflexivity|].
+  destruct (is_digit c); [|reflexivity]. destruct (span_digits t) as [d r]. cbn [fst snd app] in *. congruence.
+Qed.
+
+Lemma digits_numeric ds : Forall digit ds -> Forall numeric_char ds.
+Proof. intros H. eapply Forall_impl; [|exact H]. intros a Ha. left. exact Ha. Qed.
+
+Lemma parse_exp_chars s x : parse_exp s = Some x -> Forall numeric_char s.
+Proof.
+  unfold parse_exp.
+  assert (G : forall s1, (let '(ds, r) := span_digits s1 in
+                          match ds, r with _ :: _, [] => Some 0 | _, _ => None end) <> None -> Forall numeric_char s1).
+  { intros s1 H. pose proof (span_digits_eq s1) as E. pose proof (digits_span s1) as D.
+    destruct (span_digits s1) as [ds r]. cbn [fst snd] in *. destruct ds as [|d ds']; [congruence|].
+    destruct r; [|congruence]. rewrite E, app_nil_r. apply digits_numeric. exact D. }
+  destruct s as [|c t].
+  - intros H. constructor.
+  - destruct (c =? 45) eqn:E45; [|destruct (c =? 43) eqn:E43].
+    + apply Z.eqb_eq in E45. intros H. constructor; [unfold numeric_char; lia|]. apply G.
+      destruct (span_digits t) as [ds r]. destruct ds; [discriminate|]. destruct r; [discriminate|discriminate].
+    + apply Z.eqb_eq in E43. intros H. constructor; [unfold numeric_char; lia|]. apply G.
+      destruct (span_digits t) as [ds r]. destruct ds; [discriminate|]. destruct r; [discriminate|discriminate].
+    + intros H. apply G. destruct (span_digits (c :: t)) as [ds r]. destruct ds; [discriminate|]. destruct r; [discriminate|discriminate].
+Qed.
+
+Lemma parse_decimal_chars s ds e : parse_decimal s = Some (ds, e) -> Forall numeric_char s.
+Proof.
+  unfold parse_decimal. pose proof (span_digits_eq s) as E1. pose proof (digits_span s) as D1.
+  destruct (span_digits s) as [ip r1]. cbn [fst snd] in *. rewrite E1. intros H.
+  apply Forall_app. split; [apply digits_numeric; exact D1|].
+  assert (Tail : forall fp r2, Forall digit fp ->
+            match ip ++ fp with
+            | [] => None
+            | d :: t => match r2 with
+                        | [] => Some (d :: t, - Z.of_nat (length fp))
+                        | c :: t2 => if (c =? 101) || (c =? 69)
+                                     then match parse_exp t2 with Some x => Some (d :: t, x - Z.of_nat (length fp)) | None => None end
+                                     else None
+                        end
+            end = Some (ds, e) -> Forall numeric_char (fp ++ r2)).
+  { intros fp r2 Dfp H2. apply Forall_app. split; [apply digits_numeric; exact Dfp|].
+    destruct (ip ++ fp); [discriminate|]. destruct r2 as [|c t2]; [constructor|].
+    destruct ((c =? 101) || (c =? 69)) eqn:Ec; [|discriminate].
+    destruct (parse_exp t2) as [x|] eqn:Ex; [|discriminate].
+    constructor; [|eapply parse_exp_chars; exact Ex].
+    apply orb_true_iff in Ec as [Ec|Ec]; apply Z.eqb_eq in Ec; unfold numeric_char; lia. }
+  destruct r1 as [|c t].
+  - constructor.
+  - destruct (c =? 46) eqn:E46.
+    + apply Z.eqb_eq in E46. constructor; [unfold numeric_char; lia|].
+      pose proof (span_digits_eq t) as E2. pose proof (digits_span t) as D2.
+      destruct (span_digits t) as [fp r2]. cbn [fst snd] in *. rewrite E2. apply Tail; assumption.
+    + apply (Tail [] (c :: t)); [constructor|exact H].
+Qed.
+
+Lemma bytes_eqb_length a : forall b, bytes_eqb a b = true -> length a = length b.
+Proof.
+  induction a as [|x a IH]; intros [|y b]; cbn [bytes_eqb length]; try discriminate; [reflexivity|].
+  intros H. apply andb_true_iff in H as [_ H]. f_equal. apply IH. exact H.
+Qed.
+
+(* Everything to_number accepts is: one optional sign, then either only characters of
+   0-9 . e E + - or a 3- or 8-byte word that is inf / infinity / nan up to letter case.  In
+   particular white space, underscores, other alphabets' digits and trailing text are NaN. *)
+Theorem parse_f64_shape : forall s x,
+  parse_f64 s = Some x ->
+  exists sgn body, s = sgn ++ body /\ (sgn = [] \/ sgn = [43] \/ sgn = [45]) /\ body <> [] /\
+    (Forall numeric_char body \/
+     ((is_inf_text body = true \/ is_nan_text body = true) /\ (length body = 3 \/ length body = 8)%nat)).
+Proof.
+  intros s x. unfold parse_f64. destruct s as [|c t]; [discriminate|].
+  set (body := if (c =? 45) || (c =? 43) then t else c :: t).
+  assert (Hs : exists sgn, c :: t = sgn ++ body /\ (sgn = [] \/ sgn = [43] \/ sgn = [45])).
+  { subst body. destruct (c =? 45) eqn:E45; [apply Z.eqb_eq in E45; subst c; exists [45]; cbn; auto|].
+    destruct (c =? 43) eqn:E43; [apply Z.eqb_eq in E43; subst c; exists [43]; cbn; auto|].
+    exists []. cbn. auto. }
+  destruct Hs as (sgn & Es & Hsgn). destruct body as [|c' t'] eqn:Eb; [discriminate|].
+  intros H. exists sgn, (c' :: t'). split; [exact Es|]. split; [exact Hsgn|]. split; [discriminate|].
+  destruct (parse_decimal (c' :: t')) as [[ds e]|] eqn:Ep.
+  - left. eapply parse_decimal_chars. exact Ep.
+  - right. destruct (is_inf_text (c' :: t')) eqn:Ei.
+    + split; [left; reflexivity|]. unfold is_inf_text, fold_case in Ei. apply orb_true_iff in Ei as [Ei|Ei];
+        apply bytes_eqb_length in Ei; rewrite map_length in Ei; cbn [length] in Ei |- *; lia.
+    + destruct (is_nan_text (c' :: t')) eqn:En; [|discriminate]. split; [right; reflexivity|].
+      unfold is_nan_text, fold_case in En. apply bytes_eqb_length in En. rewrite map_length in En. cbn [length] in En |- *. lia.
+Qed.
+
 (* ------------------------------------------------------------------ cross-checks against SpecFloat *)
 
 (* round_q is this file's own rounding.  On operands that are exactly representable, IEEE division
